@@ -334,3 +334,17 @@ def dup_variants(pid, seed, tier, cases, every, ok=None):
             d["cost"] = c.get("cost", 1) * 2
             out.append(d)
     return out
+
+
+def tight_far_pair(rng, la, lb):
+    """Two shells with exponents at the upper edge of the published range, a fraction of a bohr apart, the pair
+    1000..3000 bohr from the coordinate origin: absolute coordinates are then 1e8..1e12 times larger than the width
+    of the functions, so that anything evaluated in absolute instead of relative coordinates loses its digits."""
+    d = rng.normal(size=3)
+    off = d / np.linalg.norm(d) * float(rng.uniform(1000.0, 3000.0))
+    shells = []
+    for l in (la, lb):
+        s = rand_shell(rng, l, center=off + rng.normal(size=3) * 0.05, emin=cap(l) / 300.0, emax=cap(l), ecls=str(rng.choice(["edge-hi", "log"])), Kmax=3, Mmax=2)
+        s.pop("_cls")
+        shells.append(s)
+    return shells, ["geom:tight-far"]
